@@ -359,6 +359,9 @@ fn fixed_cases() -> Vec<(String, Vec<(String, String)>, Vec<String>, bool)> {
         ("include in a block inherited by the included child".into(), s(&[("C", "{% block x %}{% include \"t\" %}{% endblock %}"), ("t", "{% extends \"C\" %}{% block x %}{{ super() }}{% endblock %}")]), p(&[]), true),
         // finding F9
         ("block nested in its own super chain".into(), s(&[("T0", "{% block a %}A{% block b %}B{% endblock %}{% endblock %}"), ("T2", "{% extends \"T0\" %}{% block b %}{% block a %}{{ super() }}{% endblock %}{% endblock %}")]), p(&[]), true),
+        // no include cycle (the component is called, not included): accepted, and bounded by the component nesting limit
+        ("component whose body includes a template that calls it again".into(), s(&[("lib", "{% component K() %}{% include \"again\" %}{% endcomponent K %}x"), ("again", "{{ <K /> }}")]), p(&[]), true),
+        ("two components calling each other through includes".into(), s(&[("lib", "{% component A() %}{% include \"toB\" %}{% endcomponent A %}{% component B() %}{% include \"toA\" %}{% endcomponent B %}"), ("toB", "{{ <B /> }}"), ("toA", "{{ <A /> }}"), ("main", "{{ <A /> }}")]), p(&[]), true),
         ("diamond of includes".into(), s(&[("a", "{% include \"b\" %}{% include \"c\" %}"), ("b", "{% include \"d\" %}"), ("c", "{% include \"d\" %}"), ("d", "x")]), p(&[]), true),
         ("same target included many times".into(), s(&[("a", &"{% include \"b\" %}".repeat(40)), ("b", &"{% include \"c\" %}".repeat(40)), ("c", "x")]), p(&[]), true),
     ]
@@ -412,7 +415,7 @@ pub fn run(rep: &Report) {
     run_in_workers(rep, "fixed", 1, 120, on_abnormal("fixed"));
     run_in_workers(rep, "random_graphs", 16, 120, on_abnormal("random_graphs"));
     run_in_workers(rep, "chains_and_cycles", 16, 120, on_abnormal("chains_and_cycles"));
-    for (lab, min) in [("graph:accepted", 90_000), ("graph:rejected", 300_000), ("single-fault:MissingParent", 9_000), ("single-fault:MissingInclude", 9_000), ("single-fault:ExtendsCycle", 9_000), ("single-fault:IncludeCycle", 9_000), ("graph:several-faults", 30_000), ("graph:with-prefixes", 300_000), ("graph:exact-name-shadows-prefixed", 30_000), ("graph:depth>=4", 15_000), ("graph:depth>=16", 3_000), ("fixed-case", 16)] {
+    for (lab, min) in [("graph:accepted", 90_000), ("graph:rejected", 300_000), ("single-fault:MissingParent", 9_000), ("single-fault:MissingInclude", 9_000), ("single-fault:ExtendsCycle", 9_000), ("single-fault:IncludeCycle", 9_000), ("graph:several-faults", 30_000), ("graph:with-prefixes", 300_000), ("graph:exact-name-shadows-prefixed", 30_000), ("graph:depth>=4", 15_000), ("graph:depth>=16", 3_000), ("fixed-case", 18)] {
         rep.floor(lab, min);
     }
 }
